@@ -132,7 +132,7 @@ func c18(tier string) {
 		ctx.Inconclusive("acv / harness binaries not available (run through ./check)")
 		ctx.FinishShard()
 	}
-	tmp, _ := os.MkdirTemp("", "c18")
+	tmp := lib.TempDir("c18")
 	defer os.RemoveAll(tmp)
 	pairs := c18Pairs(ctx.Seed, n)
 	states := []string{"absent", "empty", "shorter", "longer-garbage", "longer-report", "equal-length", "read-only", "symlink-to-file", "dangling-symlink",
